@@ -130,6 +130,10 @@ pub(crate) struct LiveEvents<'a> {
     open_depth: usize,
     /// A syntax error met while skipping the rest of a failed document; returned by the next pull.
     pending_error: Option<Error>,
+    /// The first syntax error the parser reported. The parser does not repeat every error on the
+    /// next pull, so a `Deserialize` impl that swallowed it could go on reading; the multi-document
+    /// loops ask for it when such a target returns (see `complete_document`).
+    syntax_error: Option<ScanError>,
     /// The budget breach of the current document once it has been reported, with its location.
     /// As for a reader failure, whoever received it may have chosen to go on (a best-effort
     /// `Deserialize` impl that skips what it cannot read): the document is over its budget all
@@ -242,6 +246,7 @@ impl<'a> LiveEvents<'a> {
             open_depth: 0,
             pending_error: None,
             budget_breach: None,
+            syntax_error: None,
         }
     }
 }
@@ -297,6 +302,7 @@ impl<'a> LiveEvents<'a> {
             open_depth: 0,
             pending_error: None,
             budget_breach: None,
+            syntax_error: None,
         }
     }
 
@@ -403,7 +409,11 @@ impl<'a> LiveEvents<'a> {
                     if scan_error.info() == "did not find expected <document start>" {
                         self.seen_doc_end = false;
                     }
-                    return Err(Error::from_scan_error(scan_error));
+                    let error = Error::from_scan_error(scan_error.clone());
+                    if error.is_syntax_error() {
+                        self.syntax_error.get_or_insert(scan_error);
+                    }
+                    return Err(error);
                 }
             };
             let location = location_from_span(&span);
@@ -982,8 +992,11 @@ impl<'a> LiveEvents<'a> {
     /// - a target that was shown a reader failure or a budget breach and went on regardless
     ///   must not have its value handed out: the failure is returned instead.
     pub(crate) fn complete_document(&mut self, delivered_before: u64) -> Result<(), Error> {
-        // A reader failure or budget breach that the target chose to ignore.
+        // A reader failure, budget breach or syntax error that the target chose to ignore.
         self.reported_failure()?;
+        if let Some(scan_error) = &self.syntax_error {
+            return Err(Error::from_scan_error(scan_error.clone()));
+        }
         if self.delivered == delivered_before {
             let _ = self.next()?;
             while self.open_depth > 0 && self.next()?.is_some() {}
